@@ -99,6 +99,13 @@ func (p *C11) Gen(seed uint64, i int, tier string) *scen.Scenario {
 			switch c := r.Intn(10); {
 			case c < 6:
 				sc.Setup = append(sc.Setup, scen.Op{Op: "set", L: l, Kind: kind, B: bools()})
+				if r.Chance(1, 2) {
+					// a record between mode calls: whatever a logger keeps from a record it has printed
+					// must not survive the next change of its format
+					t := tok(100 + k)
+					sc.Setup = append(sc.Setup, scen.Op{Op: "log", L: scen.Pick(r, []int{l, scen.Pick(r, loggers)}), Entry: scen.Pick(r, []string{"Print", "Info", "Warn"}), Lvl: 4,
+						Msg: "probe" + t, Tok: t, Probe: true, Args: []scen.Arg{{K: "key", S: "a"}, {K: "i", I: 1}}})
+				}
 			case c < 8 && len(loggers) < 4:
 				sc.Setup = append(sc.Setup, scen.Op{Op: "with", L: l, R: nextID, Kind: kind, B: bools()},
 					scen.Op{Op: "set", L: nextID, Kind: "writer", W: nextID}, scen.Op{Op: "set", L: nextID, Kind: "errwriter", W: nextID})
@@ -168,10 +175,62 @@ func classifyShape(p []byte) int {
 		return fmtColor
 	case len(p) > 2 && p[0] == '{' && bytes.HasSuffix(p, []byte("}\n")):
 		return fmtJSON
-	case bytes.HasPrefix(p, []byte("time=")):
+	case bytes.HasPrefix(p, []byte("time=")) && logfmtLine(p):
 		return fmtLogfmt
 	}
 	return -1
+}
+
+// logfmtLine: one line of space-separated key=value pairs (values may be double-quoted with
+// backslash escapes); a piece of another format in the middle of the line does not pass.
+func logfmtLine(p []byte) bool {
+	s := strings.TrimSuffix(string(p), "\n")
+	if strings.ContainsAny(s, "\n\r") {
+		return false
+	}
+	i := 0
+	for i < len(s) {
+		for i < len(s) && s[i] == ' ' {
+			i++
+		}
+		if i >= len(s) {
+			break
+		}
+		// key
+		k := i
+		for i < len(s) && s[i] != '=' && s[i] != ' ' && s[i] != '"' {
+			i++
+		}
+		if i == k || i >= len(s) || s[i] != '=' {
+			return false
+		}
+		i++
+		// value
+		if i < len(s) && s[i] == '"' {
+			i++
+			for i < len(s) && s[i] != '"' {
+				if s[i] == '\\' {
+					i++
+				}
+				i++
+			}
+			if i >= len(s) {
+				return false
+			}
+			i++
+			if i < len(s) && s[i] != ' ' {
+				return false
+			}
+		} else {
+			for i < len(s) && s[i] != ' ' {
+				if s[i] == '"' {
+					return false
+				}
+				i++
+			}
+		}
+	}
+	return true
 }
 
 func callName(op *scen.Op) string {
